@@ -728,7 +728,8 @@ func (vc *VC) localVars(st *State, vars map[string]Val, before ssa.Instruction) 
 		if n == "" || strings.Contains(n, "$") {
 			continue
 		}
-		if cur, ok := best[n]; !ok || a.Pos() > cur.Pos() {
+		// several cells can share a name (shadowing, the hidden rangeindex of each loop): the one allocated last wins
+		if cur, ok := best[n]; !ok || vc.allocSeq[a] > vc.allocSeq[cur] {
 			best[n] = a
 		}
 	}
